@@ -1,5 +1,6 @@
 #include "libphysica/Linear_Algebra.hpp"
 
+#include <algorithm>
 #include <cmath>
 #include <numeric>
 
@@ -259,7 +260,9 @@ bool operator==(const Vector& v1, const Vector& v2)
 
 double Angle(const Vector& v1, const Vector& v2)
 {
-	return acos(v1 * v2 / (v1.Norm() * v2.Norm()));
+	// Rounding can push the cosine of (anti-)parallel vectors slightly outside [-1,1], where acos returns NaN.
+	double cos_angle = v1 * v2 / (v1.Norm() * v2.Norm());
+	return acos(std::max(-1.0, std::min(1.0, cos_angle)));
 }
 
 // 2. Coordinates
